@@ -63,6 +63,36 @@ void ob_c08c_all(const ARR<2,3>& a, long init)
     { VIEW(v, view::sum(a, None, None, None, True)); EXPECT_VIEW2("C08.view.keepdims.all_axes_shape", "C08.view.keepdims.all_axes_element", v, 1,1, FOLDN(6, a(t/3,t%3), acc + a(t/3,t%3)), 5); }
     { VIEW(v, view::sum(a, None, None, init)); OBLIGE("C08.view.sum.all_axes_initial", (long)static_cast<long>(v) == FOLDN(6, init + a(t/3,t%3), acc + a(t/3,t%3)), 2); }
 }
+// ---- the scalar results: explicit axes that cover every dimension (generic reduction, not the axis=None one) honour `initial` and the order
+void ob_c08c_scalar_explicit_axes(const ARR<2,3>& a, const ARR<4>& u, long init)
+{ PIN(a, 2,3); PIN(u, 4);
+    { VIEW(v, view::sum(a, std::array<int,2>{0,1}, None, init)); OBLIGE("C08.view.scalar.explicit_axes_cover_all.initial_is_folded_in", (long)static_cast<long>(v) == FOLDN(6, init + a(t/3,t%3), acc + a(t/3,t%3)), 0); }
+    { VIEW(v, view::sum(a, std::array<int,2>{-1,0}, None, init)); OBLIGE("C08.view.scalar.explicit_axes_cover_all.initial_is_folded_in", (long)static_cast<long>(v) == FOLDN(6, init + a(t/3,t%3), acc + a(t/3,t%3)), 1); }
+    { VIEW(v, view::sum(u, 0, None, init)); OBLIGE("C08.view.scalar.rank1_axis0.initial_is_folded_in", (long)static_cast<long>(v) == FOLDN(4, init + u(t), acc + u(t)), 2); }
+    { VIEW(v, view::sum(u, -1, None, init)); OBLIGE("C08.view.scalar.rank1_axis0.initial_is_folded_in", (long)static_cast<long>(v) == FOLDN(4, init + u(t), acc + u(t)), 3); }
+    { VIEW(v, view::prod(u, 0, None, init)); OBLIGE("C08.view.scalar.rank1_axis0.initial_is_folded_in", (long)static_cast<long>(v) == FOLDN(4, init * u(t), acc * u(t)), 4); }
+    { VIEW(v, view::reduce_subtract(u, 0, None, init)); OBLIGE("C08.view.scalar.rank1_axis0.initial_is_the_first_left_operand", (long)static_cast<long>(v) == FOLDN(4, init - u(t), acc - u(t)), 5); }
+    { VIEW(v, view::sum(u, 0)); OBLIGE("C08.view.scalar.rank1_axis0.without_initial", (long)static_cast<long>(v) == FOLDN(4, u(t), acc + u(t)), 6); }
+}
+// ---- dtype: the fold runs in the requested result type, not in the (narrow) element type
+#ifdef VERIF_RT_KIND
+template <class T> using NARR23 = na::ndarray_t<std::array<T,6>, std::array<size_t,2>>;
+#else
+template <class T> using NARR23 = na::ndarray_t<std::array<T,6>, cshape<2,3>>;
+#endif
+template <class ET>
+void ob_c08c_dtype(const NARR23<ET>& a, long init)
+{ PIN(a, 2,3);
+    constexpr long tag = sizeof(ET) * 10 + (std::is_signed_v<ET> ? 1 : 0);
+    { VIEW(v, view::sum(a, None, nm::int64)); OBLIGE("C08.view.dtype.whole_array_fold_runs_in_the_result_type", (long)static_cast<long>(v) == FOLDN(6, (long)a(t/3,t%3), acc + (long)a(t/3,t%3)), tag, 0); }
+    { VIEW(v, view::sum(a, None, nm::int64, init)); OBLIGE("C08.view.dtype.whole_array_fold_runs_in_the_result_type", (long)static_cast<long>(v) == FOLDN(6, init + (long)a(t/3,t%3), acc + (long)a(t/3,t%3)), tag, 1); }
+    { VIEW(v, view::prod(a, None, nm::int64)); OBLIGE("C08.view.dtype.whole_array_fold_runs_in_the_result_type", (long)static_cast<long>(v) == FOLDN(6, (long)a(t/3,t%3), acc * (long)a(t/3,t%3)), tag, 2); }
+    { VIEW(v, view::sum(a, 1, nm::int64)); EXPECT_VIEW1("C08.view.dtype.shape", "C08.view.dtype.axis_fold_runs_in_the_result_type", v, 2, FOLDN(3, (long)a(i,t), acc + (long)a(i,t)), tag); }
+    { VIEW(v, view::sum(a, std::array<int,2>{0,1}, nm::int64)); OBLIGE("C08.view.dtype.explicit_axes_fold_runs_in_the_result_type", (long)static_cast<long>(v) == FOLDN(6, (long)a(t/3,t%3), acc + (long)a(t/3,t%3)), tag, 3); }
+}
+template void ob_c08c_dtype<signed char>(const NARR23<signed char>&, long);
+template void ob_c08c_dtype<unsigned char>(const NARR23<unsigned char>&, long);
+template void ob_c08c_dtype<short>(const NARR23<short>&, long);
 // ---- other operations: the non-commutative one (order), product, maximum / minimum
 void ob_c08c_ops(const ARR<2,3>& a, long init)
 { PIN(a, 2,3);
